@@ -88,7 +88,10 @@ def set_source(code, filename=DEFAULT_STUDENT_FILENAME, sections=False,
         report[TOOL_NAME]['section'] = None
         verify(code, report=report)
     else:
-        separate_into_sections(report=report)
+        if isinstance(sections, str):
+            separate_into_sections(pattern=sections, independent=independent, report=report)
+        else:
+            separate_into_sections(independent=independent, report=report)
 
 
 # TODO: source_prepend and source_append
